@@ -103,6 +103,14 @@ class DataSet:
                 "Data and DataArray must have the same dimensionality"
             )
 
+        # an axis that matches no dimension must not fall through: all
+        # offsets would be zero and the data would overwrite what is stored
+        if not -len(self.shape) <= axis < len(self.shape):
+            raise ValueError("axis {} is out of bounds for data of "
+                             "dimension {}".format(axis, len(self.shape)))
+        if axis < 0:
+            axis += len(self.shape)
+
         if any([s != ds for i, (s, ds) in
                 enumerate(zip(self.shape, data.shape)) if i != axis]):
             raise ValueError("Shape of data and shape of DataArray must match "
